@@ -165,6 +165,8 @@ class Driver:
                 kw["triggered"] = None
             elif fault == "no_global":
                 kw["triggered"] = {"foo": True}
+            elif fault == "np_bool_trigger":
+                kw["triggered"] = np.bool_(bool(global_of(spec["trig"])))
             expect = self._expect(idx, spec, ev, trig, paths, pols)
             if "noise" in expect:
                 expect["noise_bases"] = self.noise_now()
